@@ -1238,7 +1238,9 @@ FaceIter TopologyKernel::delete_face_core(FaceHandle _h) {
                                 incident_hfs_per_he_[opposite_halfedge_handle(*he_it)].end(),
                                 halfface_handle(h, 1)), incident_hfs_per_he_[opposite_halfedge_handle(*he_it)].end());
 
-            reorder_incident_halffaces(edge_handle(*he_it));
+            if (has_face_bottom_up_incidences()) {
+                reorder_incident_halffaces(edge_handle(*he_it));
+            }
         }
     }
 
@@ -1388,8 +1390,10 @@ CellIter TopologyKernel::delete_cell_core(CellHandle _h) {
           for (const auto&  heh : hf.halfedges())
             edges.insert(edge_handle(heh));
         }
-        for (auto eh : edges)
-          reorder_incident_halffaces(eh);
+        if (has_edge_bottom_up_incidences()) {
+          for (auto eh : edges)
+            reorder_incident_halffaces(eh);
+        }
     }
 
     if (deferred_deletion_enabled())
